@@ -28,8 +28,28 @@ def generated_values(ctx, s, policies=("lo", "hi", "alt", "rnd")):
     return vals
 
 
+def _size(v):
+    if isinstance(v, (list, tuple)):
+        return len(v) + sum(_size(x) for x in v[:64])
+    if isinstance(v, dict):
+        return len(v) + sum(_size(x) for x in list(v.values())[:64])
+    if isinstance(v, (str, bytes)):
+        return len(v)
+    return 1
+
+
 def value_cases(ctx, s, w, *, perturb=12, zoo=6, inject=4, gens=("lo", "hi", "rnd"), boundary=24):
     cases = [ValCase(s, w, "witness")]
+    if _size(w) > 200:
+        # a large witness (hundreds of elements / characters): its own boundary — one fewer, one more, one replaced — is what
+        # matters; the generic perturbation of every position would cost O(n^2)
+        for v in ((w[:-1], w + w[:1], w[:1] + w[:-1]) if isinstance(w, (list, str)) else ()):
+            cases.append(ValCase(s, v, "boundary"))
+        if isinstance(w, dict):
+            for k, x in w.items():
+                if isinstance(x, (list, str)) and len(x) > 0:
+                    cases += [ValCase(s, {**w, k: x[:-1]}, "boundary"), ValCase(s, {**w, k: x + x[:1]}, "boundary")]
+        return cases
     try:
         for v in boundary_values(s, w, boundary):
             cases.append(ValCase(s, v, "boundary"))
@@ -208,6 +228,32 @@ def scalar_corpus():
     for v in (b"", b"ab"):
         for e in ("schema.bytes(v)", "schema.list([schema.bytes(v)])"):
             add(e, [v] if "list" in e else v, v=v)
+    # element lists whose concrete elements accept anything (untyped any, alias of it, a union with it), in every form
+    for e, w in [("schema.list([schema.any, schema.int])", [None, 1]), ("schema.list([schema.any, ...])", ["x"]),
+                 ('schema.list([..., schema.alias("A", schema.any)])', [1, 2]),
+                 ("schema.list([..., schema.int | schema.any, ...])", [0, "s", 0]),
+                 ('schema.dict({"k": schema.list([schema.str, schema.any, schema.any]).len(3)})', {"k": ["a", 1, None]}),
+                 ("schema.list([schema.list([schema.any]), schema.any(schema.any, schema.none)])", [[1], None])]:
+        add(e, w)
+    # sizes and numbers past CPython's small-int cache (-5..256): equal but not identical objects
+    for n in (256, 257, 300, 1000):
+        add("schema.list(schema.int).len(n)", [0] * n, n=n)
+        add("schema.list.len(n, n)", [None] * n, n=n)
+        add("schema.str.len(n)", "x" * n, n=n)
+        add("schema.str.len(n, ...)", "x" * n, n=n)
+        add("schema.list([schema.int, ...]).len(n)", [1] + [None] * (n - 1), n=n)
+        add("schema.int(n)", n, n=n)
+        add("schema.int.min(n).max(n)", n, n=n)
+        add('schema.dict({"xs": schema.list(schema.none).len(..., n)})', {"xs": [None] * n}, n=n)
+    # alphabets made of characters that are special somewhere (regex classes, format strings, shell, ...)
+    for al in ("+-*/", "_-.", "9-0", "z-a", "abc-_", "-a", "a-", "]^\\", "[a-z]", "^abc", "\\d", ".", "a.b", "{}%s", "\n\t", "é☃", "$(x)", "*?"):
+        for val in ("", al, al[::-1], al[:1] * 3, al + "Q"):
+            add("schema.str.alphabet(al)", val, al=al)
+        add('schema.dict({"s": schema.list([..., schema.str.alphabet(al), ...])})', {"s": ["", al, 1]}, al=al)
+    # patterns whose text needs escaping when printed: backslashes together with control characters and both quote kinds
+    for pt in ("\\w+\t\\d+", "it\'s \"x\"\\d", "\\\\", "a\nb", "\\.\x00", "\\d{2}\xa0", "'\\w'", '"\\s"x\'', "\\\n", "tab\there"):
+        add("schema.str.regex(pt)", "", pt=pt)
+        add('schema.dict({optional("k"): schema.list([schema.str.regex(pt), ...]).len(1, 3)})', {}, pt=pt, optional=__import__("d42").optional)
     for e, w in [('schema.str.alphabet("ab").len(2)', "ab"), ('schema.str.contains("an").len(2, 6)', "banana"),
                  ('schema.str.alphabet("abn").contains("an")', "banana"), ('schema.str.regex(r"^a+$")', "aa"),
                  # unions whose alternatives are of the same kind and differ only below the top level
